@@ -14,6 +14,7 @@ import (
 	"os"
 	"os/exec"
 	"path/filepath"
+	"regexp"
 	"strings"
 	"sync/atomic"
 	"syscall"
@@ -157,7 +158,7 @@ func Run(run *lib.Run, prop string) {
 		"C02": {e.passthrough, e.eventStream, e.headerRules},
 		"C03": {e.passthrough, e.tunnelOutlivesHeaderTimeout},
 		"C04": {e.accessControl, e.timeFrame},
-		"C17": {e.accessControl},
+		"C17": {e.accessControl, e.generatedDenyLists},
 		"C05": {e.routing},
 		"C14": {e.routing, e.pacConcurrent, e.pacEval},
 		"C06": {e.credentials},
@@ -1057,6 +1058,85 @@ func tailOf(s string, n int) string {
 		return s[len(s)-n:]
 	}
 	return s
+}
+
+// generatedDenyLists: PRNG-made --deny-domains lists (anchors, classes, quantifiers with commas,
+// upper-case escapes, inline flags, alternations, '-' exclusions, duplicates of a pattern as include
+// and exclude) through the binary; the oracle evaluates every rule on its own with package regexp:
+// a host is refused iff some include rule matches it and no exclude rule does.
+func (e *env) generatedDenyLists(ch string) bool {
+	r := e.run.RNG().Sub(uint64(7700 + len(ch)))
+	frags := []string{`^a+\.test$`, `\Ab[0-9]{1,2}\.test\z`, `^\D+\.corp\.test$`, `(?i)^MiXeD\.test$`, `^(x|y|zz)\.alt\.test$`, `^[c-f]{2,}\.cls\.test$`, `\.suffix\.test$`,
+		`^w\W?w\.test$`, `^s\Sx\.test$`, `(?U)^u.+\.lazy\.test$`, `^num\d+\.test$`, `^q[a-c]{0,3}q\.test$`}
+	hosts := []string{"aaa.test", "b7.test", "b123.test", "abc.corp.test", "a1.corp.test", "mixed.test", "MIXED.test", "x.alt.test", "zz.alt.test", "q.alt.test", "cd.cls.test", "c.cls.test",
+		"any.suffix.test", "w.w.test", "ww.test", "sax.test", "sx.test", "uab.lazy.test", "num42.test", "num.test", "qq.test", "qabcq.test", "qabcaq.test", "other.test"}
+	ok := true
+	for k := 0; k < 4; k++ {
+		var rules []string
+		for n := r.Range(2, 6); n > 0; n-- {
+			f := lib.Pick(r, frags)
+			if r.Chance(1, 4) {
+				f = "-" + f
+			}
+			rules = append(rules, f)
+		}
+		if r.Chance(1, 2) { // the same pattern as include and, later, as exclude
+			f := lib.Pick(r, frags)
+			rules = append([]string{f}, append(rules, "-"+f)...)
+		}
+		if ch != "config" {
+			var keep []string
+			for _, x := range rules {
+				if !strings.Contains(x, ",") {
+					keep = append(keep, x)
+				}
+			}
+			rules = keep
+		}
+		hasInclude := false
+		for _, x := range rules {
+			hasInclude = hasInclude || !strings.HasPrefix(x, "-")
+		}
+		if !hasInclude {
+			continue
+		}
+		o := map[string][]string{"proxy-localhost": {"allow"}, "http-dial-attempts": {"1"}, "deny-domains": rules,
+			"connect-to": {":80:127.0.0.1:" + e.origin.Port()}}
+		c, err := e.child(ch, o, false)
+		if err != nil {
+			e.run.Inconclusive("wiring child: " + err.Error())
+			return false
+		}
+		for _, h := range hosts {
+			inc, exc := false, false
+			for _, x := range rules {
+				re := regexp.MustCompile(strings.TrimPrefix(x, "-"))
+				if re.MatchString(h) {
+					if strings.HasPrefix(x, "-") {
+						exc = true
+					} else {
+						inc = true
+					}
+				}
+			}
+			want := 200
+			if inc && !exc {
+				want = 403
+			}
+			m, got := do(c.ProxyAddr, "GET http://"+h+"/d HTTP/1.1\r\nHost: "+h+"\r\n\r\n", "GET")
+			e.run.Count("wiring_generated_deny_decisions", 1)
+			if !got || m.Status != want {
+				e.viol("deny-list:generated", fmt.Sprintf("[%s] --deny-domains %q: host %s must be answered %d (per-rule evaluation: include=%v exclude=%v), got %v", ch, rules, h, want, inc, exc, m), nil)
+				ok = false
+				break
+			}
+		}
+		c.Stop()
+		if !ok {
+			return false
+		}
+	}
+	return ok
 }
 
 var _ = net.Dial
